@@ -131,28 +131,35 @@ def run_case(decls):
         # directory, a new match of find_files and a new extra= file; the
         # dist target of the (regenerating) build tool must pick them up
         if rc == 0 and tars:
-            p.tick()
-            new = ['docs/later.txt', 'extra/e9.c', 'extra/later.md']
-            for n in new:
-                regen.write(os.path.join(p.src, n), 'int later;\n'
-                            if n.endswith('.c') else 'later\n')
-            for x in tars:
-                os.remove(os.path.join(p.bld, x))
-            p.tick()
-            rc3, out3 = p.tool(['dist'])
-            t3 = [x for x in os.listdir(p.bld) if x.endswith('.tar.gz')]
-            mem3 = []
-            if rc3 == 0 and t3:
-                lst = subprocess.run(['tar', '-tzf', os.path.join(
-                    p.bld, t3[0])], capture_output=True,
-                    text=True).stdout.split('\n')
-                mem3 = [os.path.normpath(x.split('/', 1)[1]) for x in lst
-                        if '/' in x and x.split('/', 1)[1] and
-                        not x.endswith('/')]
-            ev['later_exit'] = rc3
-            ev['later_missing'] = [n for n in new if n not in mem3]
-            if rc3 and not ev.get('note'):
-                ev['note'] = out3[-300:]
+            ev['later_exit'] = 0
+            ev['later_missing'] = []
+            # one change at a time (a change in one watched directory would
+            # regenerate everything and hide an unwatched one)
+            # (the cache=False search of nc/ is by design not watched)
+            for new in (['docs/later.txt'], ['extra/later.md'],
+                        ['extra/e9.c']):
+                p.tick()
+                for n in new:
+                    regen.write(os.path.join(p.src, n), 'int later;\n'
+                                if n.endswith('.c') else 'later\n')
+                for x in os.listdir(p.bld):
+                    if x.endswith('.tar.gz'):
+                        os.remove(os.path.join(p.bld, x))
+                p.tick()
+                rc3, out3 = p.tool(['dist'])
+                t3 = [x for x in os.listdir(p.bld) if x.endswith('.tar.gz')]
+                mem3 = []
+                if rc3 == 0 and t3:
+                    lst = subprocess.run(['tar', '-tzf', os.path.join(
+                        p.bld, t3[0])], capture_output=True,
+                        text=True).stdout.split('\n')
+                    mem3 = [os.path.normpath(x.split('/', 1)[1]) for x in lst
+                            if '/' in x and x.split('/', 1)[1] and
+                            not x.endswith('/')]
+                ev['later_exit'] = ev['later_exit'] or rc3
+                ev['later_missing'] += [n for n in new if n not in mem3]
+                if rc3 and not ev.get('note'):
+                    ev['note'] = out3[-300:]
         return ev
     finally:
         p.close()
